@@ -1,5 +1,5 @@
 (* C17: the small-step machine computes [exec]; interleavings of machine steps of several threads. *)
-From PG Require Import Common.Tactics Common.Tr Model.ScopesBase Gen.ScopeDefs Model.Scopes Proofs.ScopesStore.
+From PG Require Import Common.Tactics Common.Tr Model.ScopesBase Gen.ScopeDefs Model.Scopes Proofs.ScopesStore Proofs.ScopesRestore.
 
 (* --- run_solo ------------------------------------------------------------------------------------ *)
 Lemma run_solo_add : forall n m t s,
@@ -296,8 +296,8 @@ Proof.
   - destruct (nth_error flag_scopes i) as [[k init]|].
     + apply lift_enter_some_m in E; destruct E as [l1 [_ ->]]; reflexivity.
     + apply some_pair_inj in E. destruct E as [<- _]. reflexivity.
-  - unfold dyn_enter in E. cbn [fst snd] in E.
-    destruct (negb (is_none (tl_get g_dynamic_evaluate v_none g))); try discriminate.
+  - rewrite dyn_enter_thread in E.
+    destruct (is_none (tl_get g_dynamic_evaluate v_none g)); try discriminate.
     apply some_pair_inj in E. destruct E as [<- _]. reflexivity.
 Qed.
 
@@ -305,7 +305,7 @@ Lemma exit_keeps_glob : forall c a sv l g, cm_global c = false -> snd (cm_exit c
 Proof.
   intros c a sv l g H. destruct c; try discriminate; cbn [cm_exit]; unfold lift_exit; cbn [fst snd]; auto.
   - destruct (nth_error flag_scopes i) as [[k init]|]; reflexivity.
-  - unfold dyn_exit. destruct sv as [|h [|o [|x r]]]; auto. destruct (truthy h); reflexivity.
+  - rewrite dyn_exit_thread. destruct sv as [|h [|o [|e [|x r]]]]; auto. destruct (truthy h); reflexivity.
 Qed.
 
 Fixpoint no_global (p : sprog) : bool :=
